@@ -34,7 +34,7 @@ RULE = ("per run one valid BF3/BEC2/BF2 file and ~10 damage sets of 1-4 storage 
 REAL = ["bec2format.bf3file (BF3 reader, BF2 importer, filter formatter)", "bec2format.bec2file (BEC2 reader, auth "
         "blocks, encryptors)", "bec2format.configid", "register_crypto_plugin + pyaes + ecdsa"]
 STUBS = ["peer: stub decryptors (the ext_encryptors seam) returning payloads of unexpected size", "medium: SimFS with at-rest damage", "RNG: SimRng", "BF2 texts: grammar generator sim/bf2gen.py"]
-PROBES = ["peer-decryptor-odd-payload", "parsed-ok-after-damage", "format-error", "value-error", "bec2-empty-block-value",
+PROBES = ["same-text-read-again", "peer-decryptor-odd-payload", "parsed-ok-after-damage", "format-error", "value-error", "bec2-empty-block-value",
           "bf2-damaged", "configid-downstream", "filter-downstream", "line-fault", "public-only-decryptor",
           "wrong-key-decryptor", "payload-len-zero"]
 ASSUMPTIONS = ["OSError is never injected here (the medium is damaged at rest, reads succeed)"]
@@ -42,7 +42,9 @@ ASSUMPTIONS = ["OSError is never injected here (the medium is damaged at rest, r
 TXT_CHARS = ["G", ":", "\n", "\r", " ", "\0", "-", ",", "é", "z", "0", "F", "/", ".", "#", ">", "=", "*"]
 CLASSES = ["b0", "b1", "b2", "b3", "b4", "b5", "b6", "b7", "00", "FF", "+1"]
 
-CFGIDS = ["10234-5678-6789-09 Door \tController", "My Project \t (version 07)", "00042-0001-0002-03 a\u00a0 b",
+CFGIDS = ["Access Control Headquarters Main Entrance Reader (version 7)", "Office Main Entrance Reader (version 07",
+          "Building B Second Floor Meeting Room Door Controller Unit (version 12)",
+          "10234-5678-6789-09 Door \tController", "My Project \t (version 07)", "00042-0001-0002-03 a\u00a0 b",
           "10234-5678-6789-09  two  blanks", "10234-5678-6789-09 Testname", "00001-0001-0000-01", "Some Name (version 07)",
           "99999-9999-9999-99 x", "12345-0000-0001-00 a (version 01)"]
 FILTERS = ["010100B6", "010280B600BE", "0101009B", "01034001800240AD"]
@@ -415,9 +417,21 @@ def run(case):
             if kind == "bf2":
                 out.probes["bf2-damaged"] += 1
             nev += 1
-            res, val = guarded(out, {"bf3": "Bf3File.read_file", "bec2": "Bec2File.read_file",
-                                     "bf2": "Bf3File.bf2_import"}[kind], parse, len(damaged), narrow, ctx)
+            what_ = {"bf3": "Bf3File.read_file", "bec2": "Bec2File.read_file", "bf2": "Bf3File.bf2_import"}[kind]
+            if kind == "bec2" and mode in ("private", "wrong", "peer"):
+                # decryptor objects are long-lived: keep the same objects for the retry below
+                decs_once = _decryptors(mode, case, w, fs)
+
+                def parse():  # noqa: F811
+                    return files.read_file("bec2", fs, env, name, via, check, None, decs_once)
+            res, val = guarded(out, what_, parse, len(damaged), narrow, ctx)
             out.ev("parse", di, res, val if res != "ok" else "")
+            if res == "error":
+                # a caller that got an error reads the same file again (same decryptor objects)
+                nev += 1
+                out.probes["same-text-read-again"] += 1
+                res2, val2 = guarded(out, what_, parse, len(damaged), narrow, ctx + ", second read of the same text")
+                out.ev("parse-again", di, res2, val2 if res2 != "ok" else "")
             if res == "ok":
                 out.probes["parsed-ok-after-damage"] += 1
                 bf3 = val.bf3file if kind == "bec2" else val
